@@ -55,9 +55,12 @@ stageLoop:
 			*logql.LabelFilter,
 			*logql.LabelFormatExpr,
 			*logql.DropLabelsExpr,
-			*logql.KeepLabelsExpr,
-			*logql.DistinctFilter:
+			*logql.KeepLabelsExpr:
 			// Do nothing on line, just skip.
+		case *logql.DistinctFilter:
+			// Stage is stateful: a line filter offloaded past it would change
+			// which records it sees first.
+			break stageLoop
 		case *logql.LineFormat,
 			*logql.DecolorizeExpr,
 			*logql.UnpackLabelParser:
